@@ -2,5 +2,5 @@ INIT Init
 NEXT Next
 INVARIANT Inv
 CONSTANTS
- Encodings = {2, 3}
+ Encodings = {2, 3, 6, 11}
 CHECK_DEADLOCK FALSE
